@@ -1,7 +1,7 @@
 //@ assume: siphash_block is an uninterpreted function of (keys, nonce) -- SipHash-2-4 itself is outside; CuckooParams keeps its real fields; Proof is reduced to its nonce vector; global::proofsize() is an uninterpreted constant in 1..=2^20
 //@ assume: T6 rewrites: `vec![x; n]` => helper vec_filled (n copies of x); every `Err(Error::Verification("<message>".to_owned()))` => `Err(Error::<Kind>)`, one abstract kind per message, so that the contract can say WHY the input checks fail; integer literal types made explicit; `for n in 0..size` loops get spliced invariants
 //@ assume: termination of the two cycle-following loops is NOT proved: exec_allows_no_decreases_clause (it follows from the circular lists, which is proved, and from the walk being injective)
-//@ assume: decided here, for ANY proof size and any siphash outputs (no bound): CuckaroomContext::verify (Cuckaroom: a DIRECTED graph, edge n goes from node from[n] to node to[n]) never indexes out of range, and returns Ok ONLY IF the `size` edges form one simple directed cycle through all of them: starting from edge 0 and repeatedly moving to an edge that starts at the node where the current edge ends, the walk visits `size` DISTINCT edges and the last one ends where edge 0 starts; consecutive edges share their node; and no node is entered twice (the successor edge is a function of the node, so a repeated node would repeat an edge); plus nonces strictly ascending and within the edge mask. The three input checks are exact: the wrong-length / edge-too-big / not-ascending errors are returned only for that reason. (The rest of the converse -- every simple cycle is accepted -- is not decided.)
+//@ assume: decided here, for ANY proof size and any siphash outputs (no bound): CuckaroomContext::verify (Cuckaroom: a DIRECTED graph, edge n goes from node from[n] to node to[n]) never indexes out of range, and returns Ok ONLY IF the `size` edges form one simple directed cycle through all of them: starting from edge 0 and repeatedly moving to an edge that starts at the node where the current edge ends, the walk visits `size` DISTINCT edges and the last one ends where edge 0 starts; consecutive edges share their node; and no node is entered twice (the successor edge is a function of the node, so a repeated node would repeat an edge); plus nonces strictly ascending and within the edge mask. Every error except the xor pre-check carries its reason: wrong-length / edge-too-big / not-ascending only for that reason; 'dead end' only if no edge starts where some edge ends; 'branch' only if the walk from edge 0 runs into one of its own edges other than edge 0; 'too short' only if it closes after m != size edges -- each incompatible with one simple directed cycle through all edges. (Not decided: that the xor pre-check never fires on such a cycle.)
 //@ assume: 64-bit target
 //@ assume: assumed: u64::leading_zeros(x) >= 1 for x < 2^63 (std intrinsic; only used to show `1 + mask` cannot overflow)
 //@ assumed_items: 6
@@ -138,6 +138,10 @@ pub open spec fn simple_dcycle(from: Seq<u64>, to: Seq<u64>, size: int) -> bool 
     exists|path: Seq<int>| #[trigger] dwalk(from, to, path) && path.len() == size && succ_is(from, to[path.last()], 0)
         && forall|a: int, b: int| 0 <= a < b < size ==> to[path[a]] != to[path[b]]
 }
+/// no edge starts at the node where edge i ends
+pub open spec fn no_out(from: Seq<u64>, to: Seq<u64>, i: int) -> bool { 0 <= i < to.len() && forall|e: int| 0 <= e < from.len() ==> #[trigger] from[e] != to[i] }
+/// the walk from edge 0 runs into one of its own edges other than edge 0: a rho, not a cycle
+pub open spec fn rho(from: Seq<u64>, to: Seq<u64>, path: Seq<int>, t: int) -> bool { dwalk(from, to, path) && 1 <= t < path.len() && succ_is(from, to[path.last()], path[t]) }
 /// a repeated node would repeat an edge
 proof fn lemma_nodes_distinct(from: Seq<u64>, to: Seq<u64>, path: Seq<int>)
     requires dwalk(from, to, path), succ_is(from, to[path.last()], 0), from.len() == to.len()
@@ -234,6 +238,9 @@ impl CuckaroomContext {
 //@+    invariant_except_break
 //@+        nn == size, 1 <= size <= 0x10_0000, from@.len() == size, to@.len() == size, lists_ok(from@, mask, head@, prev@, nn, nn), i < size,
 //@+        k <= size,
+//@+        forall|e: int| 0 <= e < size ==> #[trigger] from@[e] == efrom(self.params, proof.nonces@, e),
+//@+        forall|e: int| 0 <= e < size ==> #[trigger] to@[e] == eto(self.params, proof.nonces@, e),
+//@+        size == proof.nonces@.len(),
 //@+        k < size ==> bk(from@, mask, k as int) == (to@[i as int] & mask) as int,
 //@+        forall|e: int| k < e < size ==> #[trigger] from@[e] != to@[i as int],
 //@+        k == size ==> forall|e: int| 0 <= e < size ==> #[trigger] from@[e] != to@[i as int],
@@ -243,10 +250,16 @@ impl CuckaroomContext {
 //@+    proof { let tv = to@[i as int];
 //@+            assert forall|e: int| 0 <= e < size && from@[e] == tv implies bk(from@, mask, e) == (tv & mask) as int by { }
 //@+    }
+//@   before `return Err(Error::DeadEnd);`:
+//@+    proof { assert(from@ =~= froms(self.params, proof.nonces@)); assert(to@ =~= tos(self.params, proof.nonces@)); assert(no_out(from@, to@, i as int)); }
+//@   before `return Err(Error::Branch);`:
+//@+    proof { assert(from@ =~= froms(self.params, proof.nonces@)); assert(to@ =~= tos(self.params, proof.nonces@));
+//@+            assert(path.contains(i as int)); let t = choose|t: int| 0 <= t < path.len() && path[t] == i as int; assert(rho(from@, to@, path, t)); }
 //@   before `if n == size {`:
 //@+    proof {
 //@+        assert(from@ =~= froms(self.params, proof.nonces@)); assert(to@ =~= tos(self.params, proof.nonces@));
-//@+        if n == size { lemma_nodes_distinct(from@, to@, path); }
+//@+        lemma_nodes_distinct(from@, to@, path);
+//@+        assert(simple_dcycle(from@, to@, n as int));
 //@+    }
 //@   requires:
 //@+    self.params.proof_size == sp_proofsize(),
@@ -254,6 +267,9 @@ impl CuckaroomContext {
 //@+    r matches Err(Error::WrongLen) ==> proof.nonces@.len() != sp_proofsize(),
 //@+    r matches Err(Error::TooBig) ==> exists|a: int| 0 <= a < proof.nonces@.len() && #[trigger] proof.nonces@[a] > self.params.edge_mask,
 //@+    r matches Err(Error::NotAscending) ==> exists|a: int| 1 <= a < proof.nonces@.len() && proof.nonces@[a - 1] >= #[trigger] proof.nonces@[a],
+//@+    r matches Err(Error::DeadEnd) ==> exists|a: int| #[trigger] no_out(froms(self.params, proof.nonces@), tos(self.params, proof.nonces@), a),
+//@+    r matches Err(Error::Branch) ==> exists|path: Seq<int>, t: int| #[trigger] rho(froms(self.params, proof.nonces@), tos(self.params, proof.nonces@), path, t),
+//@+    r matches Err(Error::TooShort) ==> exists|m: int| m != sp_proofsize() && #[trigger] simple_dcycle(froms(self.params, proof.nonces@), tos(self.params, proof.nonces@), m),
 //@+    r.is_ok() ==> proof.nonces@.len() == sp_proofsize()
 //@+        && (forall|a: int| 0 <= a < proof.nonces@.len() ==> #[trigger] proof.nonces@[a] <= self.params.edge_mask)
 //@+        && (forall|a: int| 1 <= a < proof.nonces@.len() ==> proof.nonces@[a - 1] < #[trigger] proof.nonces@[a])
